@@ -674,5 +674,5 @@ Proof.
   intros Hset Hwf Hps. split; [|apply expand_pseudo_nodup; exact Hwf].
   intros lbl Hin. destruct (expand_pseudo_sound cur include exclude st g L jt lbl Hset Hwf Hps Hin)
     as [p [t [H1 [_ [H3 [H4 [H5 H6]]]]]]].
-  exists p, t. repeat split; assumption.
+  exists p, t. split; [exact H1|]. split; [exact H3|]. split; [exact H4|]. split; [exact H5 | exact H6].
 Qed.
